@@ -96,21 +96,6 @@ def code_window(img):
 # ------------------------------------------------------------------------------------------------
 # judgement by TLC (spec/ALink_Trace.tla) and reporting
 # ------------------------------------------------------------------------------------------------
-def known_devs():
-    """named deviations of spec/ALink.tla, and those whose repair is recorded as applied (known_findings, "dev")"""
-    import glob
-    fixed = set()
-    base = os.path.dirname(os.path.dirname(os.path.abspath(__file__)))
-    for path in glob.glob(os.path.join(base, "known_findings", "*.json")):
-        try:
-            for f in json.load(open(path)).get("findings", []):
-                if f.get("status") == "fixed" and f.get("dev"):
-                    fixed.add(f["dev"])
-        except (OSError, ValueError):
-            pass
-    return fixed
-
-
 class Verdicts:
     """collects mismatches; one SPEC-DRIFT line per kind, VIOLATION only where man/alink.1 is definite (exit codes)"""
 
@@ -190,15 +175,7 @@ def judge(rep, vd, tier, pending, bld):
 # ------------------------------------------------------------------------------------------------
 # (G) file level: TLC writes the relocatable files
 # ------------------------------------------------------------------------------------------------
-def file_level(rep, vd, bld, tier, cfgs):
-    cases = []
-    for cfg in cfgs:
-        with Phase("TLC ALink_MC %s" % cfg):
-            r = tlc.must(tlc.run("ALink_MC", cfg, timeout=1500, mem="8g"), cfg)
-        if r.violation:
-            raise CheckError("ALink_MC %s: %s" % (cfg, r.violation[:600]))
-        rep.model("ALink_MC(%s)" % cfg, r)
-        cases += [x for (t, x) in r.printed if t == "TR"]
+def file_level(rep, vd, bld, tier, cases):
     for x in cases:
         if not x["allowed"]:
             raise CheckError("specification inconsistent: operational model without deviations contradicts Link_decl on %s"
@@ -301,7 +278,8 @@ def render(prog):
         elif op == "res":
             out.append("\tds\t%d" % st["n"])
         elif op == "db":
-            out.append("\tdb\t" + ",".join("%d" % b for b in st["bytes"]))
+            for k in range(0, len(st["bytes"]), 16):          # a long DB as several lines (argument limit of a source line)
+                out.append("\tdb\t" + ",".join("%d" % b for b in st["bytes"][k:k + 16]))
         elif op == "label":
             out.append(nm(st["name"]) + ":")
         elif op == "equ":
@@ -320,23 +298,7 @@ def body(b):
     return bytes(b[:p.body_len]) if p.body_len else bytes(b)
 
 
-def source_level(rep, vd, bld, tier, nsim):
-    with Phase("TLC ALink_Gen families"):
-        r = tlc.must(tlc.run("ALink_Gen", "ALink_Fam.cfg", timeout=1500, mem="8g"), "ALink_Fam.cfg")
-    if r.violation:
-        raise CheckError("ALink_Gen families: %s" % r.violation[:600])
-    rep.model("ALink_Gen(ALink_Fam.cfg)", r)
-    cases = [x for (t, x) in r.printed if t == "TR"]
-    with Phase("TLC ALink_Gen simulate"):
-        sim = tlc.must(tlc.run("ALink_Gen", "ALink_Sim.cfg", workers=4, simulate=nsim, depth=14, timeout=1500, mem="8g"),
-                       "ALink_Sim.cfg")
-    seen = set()
-    for (t, x) in sim.printed:
-        if t == "BEH":
-            k = json.dumps(x["src"], sort_keys=True)
-            if k not in seen:
-                seen.add(k)
-                cases.append(x)
+def source_level(rep, vd, bld, tier, cases, nsim_distinct):
     for x in cases:
         if not (x["allowed"] and x["accepted"]):
             raise CheckError("specification inconsistent (ALink_Gen): %s" % json.dumps(x["src"])[:400])
@@ -374,9 +336,10 @@ def source_level(rep, vd, bld, tier, nsim):
                                   files={"m.asm": src, "m.p": p}, key={"tool": "asl", "explained_by": "none"})
                 else:
                     vd.drift("UNEXPLAINED relocatable code file (writer model)", text)
-            elif x["lost"][i] or x["split"][i] or not x["faithful"][i]:
+            elif x["lost"][i] or x["split"][i] or x["cancel"][i] or x["leak"][i] or not x["faithful"][i]:
                 vd.drift("writer deviation %s (asl does what the as-coded writer model says; RelocWriter!Faithful does not hold)"
-                         % ("tail_exports_lost" if x["lost"][i] else "split_patch_stray" if x["split"][i] else "?"),
+                         % ("tail_exports_lost" if x["lost"][i] else "split_patch_stray" if x["split"][i] else
+                            "merge_same_sign_cancels" if x["cancel"][i] else "export_queue_survives_pass" if x["leak"][i] else "?"),
                          relocfile.describe(p) + "; source:\n" + src)
         if usable:
             ljobs.append(alink_job(files))
@@ -415,7 +378,7 @@ def source_level(rep, vd, bld, tier, nsim):
             nb += 1
             vd.drift("p2bin image of the linked file differs from Link_decl",
                      "linked %s; p2bin gives %s" % (relocfile.describe(pb), (got or b"").hex()[:200]))
-    rep.part("ext_alink_sources", link_sets=len(cases), simulated_distinct=len(seen), modules_assembled=len(ajobs),
+    rep.part("ext_alink_sources", link_sets=len(cases), simulated_distinct=nsim_distinct, modules_assembled=len(ajobs),
              writer_files_differing=nwr, linked=len(ljobs), images_compared=len(imgs), p2bin_images_differing=nb,
              differing_from_ideal_model=len(pending))
     if cases:
@@ -424,14 +387,72 @@ def source_level(rep, vd, bld, tier, nsim):
     return pending
 
 
+# ------------------------------------------------------------------------------------------------
+# (M) + generators: every TLC run of the extension, side by side
+# ------------------------------------------------------------------------------------------------
+def tlc_phase(rep, tier):
+    import concurrent.futures as cf
+    quick = tier == "quick"
+    jobs = []          # (kind, module, cfg, expected violated invariant, simulate)
+    for cfg in (["ALink_MC.cfg", "ALink_MC_rel.cfg"] + ([] if quick else ["ALink_MC_rel2.cfg", "ALink_MC_3.cfg", "ALink_MC_p2.cfg"])):
+        jobs.append(("mc", "ALink_MC", cfg, None, None))
+    jobs.append(("mc", "RelocWriter_MC", "RelocWriter_MC3.cfg" if quick else "RelocWriter_MC.cfg", None, None))
+    for cfg, inv in (("ALink_MC_dev_null.cfg", "NoCrash"), ("ALink_MC_dev_stall.cfg", "Aligned"), ("ALink_MC_dev_pass.cfg", "Conforms"),
+                     ("ALink_MC_dev_dup.cfg", "Conforms"), ("ALink_MC_dev_oob.cfg", "NoCrash")):
+        jobs.append(("dev", "ALink_MC", cfg, inv, None))
+    for d in (("Excused",) if quick else ("Lost", "Split", "Cancel", "Leak")):
+        jobs.append(("dev", "RelocWriter_MC", "RelocWriter_MC_dev_%s.cfg" % d, "Never" + d, None))
+    for cfg in ["ALink_List.cfg", "ALink_Cover.cfg"] + ([] if quick else ["ALink_Cover_rel.cfg"]):
+        jobs.append(("genfile", "ALink_MC", cfg, None, None))
+    jobs.append(("gensrc", "ALink_Gen", "ALink_Fam.cfg", None, None))
+    if not quick:
+        jobs.append(("gensrc", "ALink_Gen", "ALink_Big.cfg", None, None))
+    jobs.append(("gensim", "ALink_Gen", "ALink_Sim.cfg", None, 40 if quick else 600))
+
+    def one(j):
+        kind, mod, cfg, inv, sim = j
+        big = cfg in ("ALink_MC_p2.cfg", "ALink_Big.cfg", "RelocWriter_MC.cfg", "ALink_MC_3.cfg")
+        return tlc.run(mod, cfg, workers=(4 if big or sim else 2), simulate=sim, depth=14 if sim else None, timeout=2400,
+                       mem="6g" if big else "3g", collect=kind.startswith("gen"))
+    with Phase("TLC: %d runs of ALink_MC / RelocWriter_MC / ALink_Gen" % len(jobs)):
+        with cf.ThreadPoolExecutor(max_workers=10 if quick else 4) as ex:
+            results = list(ex.map(one, jobs))
+    filecases, srccases, seen = [], [], set()
+    for (kind, mod, cfg, inv, sim), r in zip(jobs, results):
+        tlc.must(r, cfg)
+        if kind == "dev":
+            if not (r.violation and inv in r.violation):
+                raise CheckError("named deviation of %s is vacuous: TLC finds no violation of %s" % (cfg, inv))
+            rep.model("%s(%s: %s violated as it must)" % (mod, cfg, inv), r)
+            continue
+        if r.violation:
+            raise CheckError("%s violates its own property in %s: %s" % (mod, cfg, r.violation[:800]))
+        rep.model("%s(%s)" % (mod, cfg), r)
+        if kind == "genfile":
+            filecases += [x for (t, x) in r.printed if t == "TR"]
+        elif kind == "gensrc":
+            srccases += [x for (t, x) in r.printed if t == "TR"]
+        elif kind == "gensim":
+            for (t, x) in r.printed:
+                if t == "BEH":
+                    k = json.dumps(x["src"], sort_keys=True)
+                    if k not in seen:
+                        seen.add(k)
+                        srccases.append(x)
+    if not filecases or not srccases:
+        raise CheckError("the generators of the ALINK extension printed no cases")
+    return filecases, srccases, len(seen)
+
+
 def run(rep, bld, tier):
     vd = Verdicts(rep)
     rep.assumptions += ["ALINK / relocatable records: neither the manual nor a listed property defines them; Link_decl is written "
                         "from fileformat.h; only a run killed by a signal or the time limit is a violation (man/alink.1 exit "
                         "codes 0..3), every other mismatch is SPEC-DRIFT (VERIF_ALINK_STRICT=1 turns unexplained ones into "
                         "violations)"]
-    pending = file_level(rep, vd, bld, tier, ["ALink_List.cfg", "ALink_Cover.cfg"])
-    pending += source_level(rep, vd, bld, tier, 120 if tier == "quick" else 2500)
+    filecases, srccases, nsim = tlc_phase(rep, tier)
+    pending = file_level(rep, vd, bld, tier, filecases)
+    pending += source_level(rep, vd, bld, tier, srccases, nsim)
     stats = judge(rep, vd, tier, pending, bld)
     rep.part("ext_alink_judged", **stats)
     vd.flush()
